@@ -903,7 +903,7 @@ fn sub_sequences(tier: Tier, subs: &mut Vec<Sub>) {
         cfgs.len(),
         CHUNK
     );
-    subs.push(Sub::new("seq-programs", ncase, &bound, move |ctx, i| {
+    push_sub(subs, Sub::new("seq-programs", ncase, &bound, move |ctx, i| {
         let mut m = Mix(i);
         let chunk = m.take(nchunk);
         let framed = m.flag();
@@ -933,7 +933,7 @@ fn sub_tombstone(tier: Tier, subs: &mut Vec<Sub>) {
     let nseq = seq_count(nsym, 0, maxlen);
     let nchunk = nseq.div_ceil(CHUNK);
     let ncase = params.len() as u64 * cfgs.len() as u64 * nchunk;
-    subs.push(Sub::new(
+    push_sub(subs, Sub::new(
         "tombstone-programs",
         ncase,
         &format!("every sequence of length 0..={} over {{set_address base, base+0x10, base-8, all-ones, all-ones-1, all-ones-2; copy; special; advance_pc 1; fixed_advance_pc 1; advance_line 1; end_sequence}} x 2 headers x 8 configurations, compared with the state machine extended by the documented tombstone rule; the any-input clause on every one", maxlen),
@@ -978,7 +978,7 @@ fn sub_boundary(tier: Tier, subs: &mut Vec<Sub>) {
     let nseq = seq_count(nsym, 0, maxlen);
     let nchunk = nseq.div_ceil(CHUNK);
     let ncase = params.len() as u64 * cfgs.len() as u64 * nchunk;
-    subs.push(Sub::new(
+    push_sub(subs, Sub::new(
         "boundary-operands",
         ncase,
         &format!("every sequence of length 0..=3 over 22 boundary-operand instructions (advance_pc {{2^32, 2^63, 2^64-1}}, advance_line {{i64::MIN, i64::MAX, -2^31, 2^32}}, set_file/set_column/set_isa/set_discriminator 2^64-1, fixed_advance_pc 0xffff, special min/max, const_add_pc, copy, advance_pc 1, set_address {{0, max-2, 2^31}}, unknown standard with 2^64-1 operand, end_sequence), followed by copy; end_sequence, x {} headers x 4 configurations", params.len()),
@@ -1176,7 +1176,7 @@ fn sub_opcodes(tier: Tier, subs: &mut Vec<Sub>) {
         }
     }
     let n = pairs.len() as u64;
-    subs.push(Sub::new(
+    push_sub(subs, Sub::new(
         "opcode-256",
         n * 8,
         &format!("for {} (header parameters, configuration) pairs [48-element pairwise covering set of min_inst {{1,2,4,255}} x max_ops {{1,2,4,255}} x line_base {{-128,-5,-1,0,1,127}} x line_range {{1,2,14,255}} x opcode_base {{1,2,4,10,13,14,20,255}} x default_is_stmt x 8 configurations{}]: every opcode byte 0..=255 as `set_address; [advance_pc 1;] <op with boundary operands>; copy; end_sequence` (standard opcodes with operands {{0,1,0x7f,0x80,2^32,2^64-1}} resp. signed boundaries, unknown standard opcodes with their declared operand counts, opcode 0 with every extended sub-opcode 0..=255 and payload variants incl. surplus, short and zero lengths); 32 opcode values per case", n, if tier == Tier::Thorough { "; plus the covering set x all 64 configurations; plus the full 6144-element parameter product x 8 configurations" } else { "" }),
@@ -1204,7 +1204,7 @@ fn sub_headers(tier: Tier, subs: &mut Vec<Sub>) {
     let cfgs = all_cfgs();
     let np = params.len() as u64;
     let nc = cfgs.len() as u64;
-    subs.push(Sub::new(
+    push_sub(subs, Sub::new(
         "header-params",
         np * nc * 4,
         &format!("{} header parameter tuples ({}) x all 64 configurations (version 2-5 x DWARF32/64 x address size 1/2/4/8 x byte order) x 4 layouts (unit offset 0/7, trailing bytes after the unit, 0/3 padding bytes inside header_length, comp_dir/comp_name given or not): every header accessor, the tables, and three fixed programs", np, if tier == Tier::Thorough { "full product of the DESIGN value sets" } else { "pairwise covering set" }),
@@ -1250,7 +1250,7 @@ fn sub_tables_v4(_tier: Tier, subs: &mut Vec<Sub>) {
     let nf = seq_count(5, 0, 3);
     let cfgs: Vec<Cfg> = all_cfgs().into_iter().filter(|c| c.version <= 4 && c.addr >= 4).collect();
     let nc = cfgs.len() as u64;
-    subs.push(Sub::new(
+    push_sub(subs, Sub::new(
         "tables-v2-4",
         nd * nf * nc,
         "version 2-4 headers: every include_directories list of length 0..=3 over 2 names x every file_names list of length 0..=3 over 5 entries (duplicate names, directory indices 0..0x80, LEB boundary timestamps/sizes up to 2^64-1) x versions 2,3,4 x DWARF32/64 x address size 4/8 x byte order; tables, index conventions directory(k)/file(k), define_file appends",
@@ -1316,7 +1316,7 @@ fn sub_tables_v5(tier: Tier, subs: &mut Vec<Sub>) {
     let per = tier.pick(1u64, 32u64);
     let ncase = nv.div_ceil(per) * 8;
     let v2 = vecs.clone();
-    subs.push(Sub::new(
+    push_sub(subs, Sub::new(
         "tables-v5-formats",
         ncase,
         &format!("version 5 headers: every entry-format vector of length 1..={} with exactly one DW_LNCT_path over content types {{path, directory_index, timestamp, size, MD5, LLVM_source, unknown 0x2002, unknown 0x10001}} x forms {{string, line_strp, strp, strx, strx1-4 (path: these only), udata, data1/2/4/8, data16, block, block1}} ({} vectors), used as file_name_entry_format (2 files) and as directory_entry_format (2 directories), x DWARF32/64 x byte order; fields whose form is outside the standard's classes for that content type are parsed but not compared", maxlen, nv),
@@ -1343,7 +1343,7 @@ fn sub_tables_v5(tier: Tier, subs: &mut Vec<Sub>) {
         },
     ));
     // entry counts, incl. the empty format / empty table the standard allows
-    subs.push(Sub::new(
+    push_sub(subs, Sub::new(
         "tables-v5-counts",
         5 * 5 * 4 * 2,
         "version 5 headers: directories count 0..=3 and file_names count 0..=3 under 2 formats each, plus file_name_entry_format_count = 0 with file_names_count = 0 (allowed by DWARF 5 section 6.2.4 item 22), x DWARF32/64 x byte order",
@@ -1384,7 +1384,7 @@ fn sub_raw(tier: Tier, subs: &mut Vec<Sub>) {
     let nh = tier.pick(12usize, 40usize);
     let pairs: Vec<(Params, Cfg)> = (0..nh).map(|k| if thorough { (cover[k], cfgs[k % 8]) } else { (cover[(k * 4 + k / 2) % 48], cfgs[k % 8]) }).collect();
     let n = pairs.len() as u64;
-    subs.push(Sub::new(
+    push_sub(subs, Sub::new(
         "raw-bodies",
         n * 2 * 257,
         &format!("every byte string of length 0..={} as the whole program body, and the same after `set_address (max-0x10)`, under {} headers of the covering set (configurations rotating): rows never decrease within a sequence and never exceed the address size; bodies the reference decoder finds well-formed are also compared row by row; index = first byte (256 = empty body)", tier.pick(2, 3), n),
@@ -1424,6 +1424,12 @@ fn sub_raw(tier: Tier, subs: &mut Vec<Sub>) {
             }
         },
     ));
+}
+
+/// Generous no-progress timeout: one case is at most a few hundred ms of CPU, but
+/// the machine may be heavily oversubscribed by parallel sessions.
+fn push_sub(subs: &mut Vec<Sub>, s: Sub) {
+    subs.push(s.timeout(1800));
 }
 
 pub fn def(tier: Tier) -> CheckDef {
